@@ -52,6 +52,7 @@ type failer interface {
 type program struct {
 	Cmds      [][]string `json:"cmds"`
 	JSONPhase int        `json:"json_phase"`
+	NoJSON    bool       `json:"no_json,omitempty"` // names are not valid UTF-8: JSON replies substitute U+FFFD
 }
 
 func negative(v t38.Value) bool {
@@ -79,7 +80,7 @@ func runProgram(t failer, c *ev.Collector, p program, dumpAlways bool) (labels m
 		name := strings.ToLower(cmd[0])
 		classify(labels, expired, before, cmd, exp)
 		fmt.Fprintf(&abs, "%s(%s);", name, abstractArgs(cmd, exp))
-		useJSON := (i+p.JSONPhase)%2 == 1
+		useJSON := (i+p.JSONPhase)%2 == 1 && !p.NoJSON
 		fail := func(kind, what string) {
 			c.Fail(t, "model-mismatch:"+name+":"+kind,
 				fmt.Sprintf("step %d %s: %s", i, t38.CmdString(cmd), what), p)
@@ -256,6 +257,35 @@ func TestC01_Model(t *testing.T) {
 			c.NonTrivial(abs)
 			if c.WantSample() {
 				c.Sample(map[string]any{"cmds": gen.Describe(p.Cmds), "labels": keys(labels)})
+			}
+		}
+	})
+}
+
+// TestC01_HostileNames runs the same model comparison with names that contain
+// NUL, 0xff, CR/LF, invalid UTF-8 and a 70-200 KB id (RESP mode only).
+func TestC01_HostileNames(t *testing.T) {
+	c := ev.New("C01", "hostile-names", "exploration")
+	t.Cleanup(c.Flush)
+	c.Rule("as the model sub-check, but keys/ids/field names are drawn from a hostile alphabet (NUL, 0xff, CR/LF, invalid UTF-8, spaces, '*', a 70-200 KB id); RESP mode only. Non-trivial and distinct as in the model sub-check.")
+	ev.Rapid("hostile", ev.Pick(150, 1500))
+	rapid.Check(t, func(rt *rapid.T) {
+		ns := gen.HostileNames(rt)
+		cmdGen := rapid.Custom(func(t *rapid.T) []string { return gen.KeyspaceCmd(t, ns) })
+		p := program{Cmds: rapid.SliceOfN(cmdGen, 6, 30).Draw(rt, "cmds"), NoJSON: true}
+		c.Case()
+		labels, abs := runProgram(rt, c, p, false)
+		for l := range labels {
+			c.Label(l)
+		}
+		if nontrivial(labels) {
+			c.NonTrivial(abs)
+			if c.WantSample() {
+				var short []string
+				for _, cmd := range p.Cmds {
+					short = append(short, t38.CmdString(cmd))
+				}
+				c.Sample(map[string]any{"cmds": short})
 			}
 		}
 	})
